@@ -100,6 +100,33 @@ def run_flat(rep, tier, seed, selftest, cfg):
             agree_model += 1
     log("[replay] %d cases replayed on the real compiler, %d violations, model agreement %d/%d" %
         (len(cases), len(rep.violations), agree_model, len(cases)))
+    # ---- 2a. the same cases as the SECOND module of a compilation -----------------
+    # (pvh::alpha::PREMODULE goes through the same Compiler first, as `penne pre.pn case.pn` does: labels, variables,
+    # parameters, constants, blocks and a loop leave behind whatever the stages keep per module; the rule knows nothing of
+    # other modules, so the verdict is the same).  Quick: every third case; thorough: every case.
+    step = 3 if tier == "quick" else 1
+    sub = list(range(0, len(cases), step))
+    cases2_path = os.path.join(common.WORK, "%s-cases2-%d.ndjson" % (prop, os.getpid()))
+    obs2_path = os.path.join(common.WORK, "%s-obs2-%d.ndjson" % (prop, os.getpid()))
+    common.write_ndjson(cases2_path, [cases[i] for i in sub])
+    common.pvh(["replay-flat", cases2_path, obs2_path], env={"PVH_PREMODULE": "1"})
+    second = common.read_ndjson(obs2_path)
+    if len(second) != len(sub):
+        raise common.ToolError("replay (second module) returned %d observations for %d cases" % (len(second), len(sub)))
+    n2 = 0
+    for i, obs2 in zip(sub, second):
+        problems2 = cfg["compare"](cases[i], obs2)
+        if problems2 and not cfg["compare"](cases[i], observations[i]):
+            n2 += 1
+            for kind, msg in problems2:
+                rep.violation("flat", canon(cases[i]) + " ^second-module",
+                              {"case": cases[i], "observed": obs2, "observed_alone": observations[i], "problem": kind,
+                               "message": msg + " (as the second module of a compilation; alone the case behaves as the rule says)",
+                               "how": "bin/check %s --replay <this file>" % prop})
+    log("[replay] %d of the cases as the second module of a compilation: %d differ from the rule only there" % (len(sub), n2))
+    for f in (cases2_path, obs2_path):
+        if os.path.exists(f):
+            os.remove(f)
     if not model_ok and not rep.violations and not rep.known_hits:
         # model says A violates R but the code satisfies R on all emitted cases: the model drifted
         rep.note_drift("TLC reports %s violated but no replayed case shows it on the real code" % r.violated)
